@@ -50,7 +50,11 @@ FIXED = ['class A : ;', 'defvar = 1;', 'defset int = { }', 'defvar v = x[1...];'
          'class A { let x{1} = 2; }', 'multiclass M { def A; }', 'defm A : B;', 'foreach i = [1, 2] in def X;', 'foreach i = {1-3} in def X;',
          'foreach i = 1...3 in def X;', 'if 1 then { def A; } else { def B; }', 'class C<int a> { bits<4> b = { a, 1, 0, 1 }; }',
          'defvar v = !cond(1: 2, 3: 4);', 'defvar v = !cast<A>("x");', 'defvar d = (op a:$x, b:$y);', 'defvar l = [1, 2,];',
-         'class A : B<1,>;', 'defset list<A> S = { def X; }', 'assert 1, "m";', 'dump "m";', 'include "f.td"']
+         'class A : B<1,>;', 'defset list<A> S = { def X; }', 'assert 1, "m";', 'dump "m";', 'include "f.td"',
+         'def A#B { int x = 1; }', 'def A#B#C : D { }', 'defm A#B : C;', 'def A#B;', 'def a[0].f#b { }', 'multiclass M { }',
+         'multiclass M<int a> : B { defm X : C<a>; }', 'class A { field int x = 1; code c = [{ x }]; dump "m"; }',
+         'defvar v = a.b.c[0, 1]{3-1}; ', 'defvar v = !foreach(x, [1], x);', 'let A<1> = 2, B = 3 in def X;',
+         'class A<bits<2> b = {1, 0}, list<int> l = [1]> ;', 'if !eq(1, 2) then def A; else if 1 then def B;']
 
 
 class Grammars:
@@ -154,6 +158,17 @@ def variants(s, rng, n):
                 i = rng.randrange(len(v) - 1)
                 v[i], v[i + 1] = v[i + 1], v[i]
         out.append(v)
+    return out
+
+
+def systematic(s):
+    """all single-token deletions, duplications and adjacent transpositions"""
+    out = []
+    for i in range(len(s)):
+        out.append(s[:i] + s[i + 1:])
+        out.append(s[:i] + [s[i]] + s[i:])
+        if i + 1 < len(s):
+            out.append(s[:i] + [s[i + 1], s[i]] + s[i + 2:])
     return out
 
 
@@ -295,7 +310,12 @@ def run(ctx):
     allc = list(fixed_sents) + list(sents)
     nvar = 5 if ctx.quick else 8
     for s in fixed_sents:
+        allc += systematic(s)
         allc += variants(s, rng, 12)
+    small_limit = 12 if ctx.quick else 20
+    for s in sents:
+        if len(s) <= small_limit:
+            allc += systematic(s)
     for s in sents:
         if len(s) <= 30:
             allc += variants(s, rng, nvar)
@@ -440,10 +460,11 @@ def run(ctx):
         "evaluations": len(cases) + len(acc_texts) + len(ctexts),
         "distinct_nontrivial": len([k for k in distinct if len(k) >= 3]),
         "rule": "sentences: for every alternative of every rule of the documented grammar (3 variants: as read / with the REJECT deltas / with the ACCEPT deltas) "
-                "two forced derivations + %d random derivations (size budgets 5..40), %d fixed inputs; for every sentence of <= 30 tokens %d random variants of 1-2 token "
+                "two forced derivations + %d random derivations (size budgets 5..40), %d fixed inputs; ALL single-token deletions / duplications / adjacent transpositions of the "
+                "fixed inputs and of the sentences of <= %d tokens; for every sentence of <= 30 tokens %d random variants of 1-2 token "
                 "deletions / insertions (alphabet of %d tokens) / duplications / transpositions; each decided by the Earley recogniser (must-grammar => zero errors, "
                 "not in the trailing-separator grammar => >= 1 error); accessor walk on the clean sentences; %d corpus files. "
-                "non-trivial = distinct token-kind sequence of length >= 3" % (n + 2 * (n // 3), len(fixed_texts), nvar, len(ALPHABET), len(cfiles)),
+                "non-trivial = distinct token-kind sequence of length >= 3" % (n + 2 * (n // 3), len(fixed_texts), small_limit, nvar, len(ALPHABET), len(cfiles)),
         "exhaustive": False,
         "verdicts": stats,
         "sentences_of_must_grammar": npos,
